@@ -91,8 +91,19 @@ func (vm *Vm) AddTraceback(exc *py.ExceptionInfo) {
 		Next:   exc.Traceback,
 		Frame:  vm.frame,
 		Lasti:  vm.frame.Lasti,
-		Lineno: vm.frame.Code.Addr2Line(vm.frame.Lasti),
+		// Lasti is already past the instruction which failed: the line
+		// is that of the instruction, not of what follows it
+		Lineno: vm.frame.Code.Addr2Line(lastiOfCurrent(vm.frame)),
 	}
+}
+
+// lastiOfCurrent is an address inside the instruction being executed
+// (Lasti has been advanced beyond it, unless nothing ran yet)
+func lastiOfCurrent(f *py.Frame) int32 {
+	if f.Lasti > 0 {
+		return f.Lasti - 1
+	}
+	return f.Lasti
 }
 
 // Set an exception in the VM
